@@ -521,6 +521,16 @@ _R8 = [
      "no index value is built from an unchecked sum or product (index arithmetic stays in usize)"),
     (("C20",), rules8.dsatur_update_then_queue, 2, None, "dsatur re-queues a neighbour with its saturation read after the colour was inserted"),
     (("C15",), rules8.join_flag_names_edge, 2, None, "find_join's walk ends only at a vertex flagged with the current edge's id"),
+    (("C01", "C02"), rules8.who_updates_edges, {"C01": 2, "C02": 2},
+     lambda pid: (lambda f, s: "stable_graph" not in f or "«impl" in f and False) if pid == "C01" else (lambda f, s: True),
+     "Graph / StableGraph are rebuilt with add_edge; update_edge is called only by its wrappers and condensation"),
+    (("C05",), rules8.csr_count_reset, 1, None, "a Csr function that empties `column` also stores `edge_count`"),
+    (("C06", "C05"), rules8.csr_edge_id_steps, 2, None, "Csr EdgeReferences::next stores its id counter for every element pulled (skipped mirror entries included)"),
+    (("C09", "C07"), rules8.kosaraju_emits_walker_output, 3, None, "kosaraju_scc pushes only what Dfs / DfsPostOrder emit (or what a test-and-set guards)"),
+    (("C14",), rules8.ordermap_both_directions, 3, None, "OrderMap's writers update both directions on every path to the return"),
+    (("C15", "C07"), rules8.residual_arithmetic_is_directional, 2, None, "ford_fulkerson subtracts capacities / flows only where the traversal direction is known"),
+    (("C18", "C04", "C06"), rules8.index_vs_count, 1, None, "no node index is tested against node_count() of MatrixGraph / StableGraph (growth loops excepted)"),
+    (("C20", "C07"), rules8.position_vs_index, 20, None, "a Vec collected in enumeration order is not indexed by to_index without NodeCompactIndexable"),
     (("C17",), rules8.reader_never_panics, 50, None, "the deserialising functions contain no explicit panic site (assert / debug_assert / unwrap / expect / panic) on a reachable path"),
 ]
 for _pids, _fn, _floor, _predf, _txt in _R8:
